@@ -875,4 +875,188 @@ theorem spec_parseDirectiveDefinition (n : Nat) (desc : Bytes) :
     exact (derives_directiveDef (dd := ⟨desc, tnm.value, args, locs, false, pos⟩) hD p3.1.opt q4).cast
       (by simp [kwTok k0 v0, p1, ofToken_name k2, q1]) rfl
 
+/-! ### from a parsed body to the derivation of a TypeDefinition / TypeExtension -/
+
+theorem wf_of_body {d : Definition} {u : List Token} (hb : BodyOf d u) (hen : EnumOK d) : WFDefBody d := by
+  obtain ⟨tsI, tsB, _, hcd, _, parts⟩ := hb
+  refine ⟨hcd, ?_⟩
+  unfold BodyParts at parts
+  unfold EnumOK at hen
+  cases hk : d.kind <;> simp only [hk] at parts hen ⊢
+  · exact parts.2.2
+  · exact parts.2.2
+  · intro e he
+    exact ⟨hen trivial e he, parts.2.2.2 e he⟩
+  · exact parts.2.2
+
+theorem derives_definition {d : Definition} {u : List Token} {tsD : List Tok} (hb : BodyOf d u)
+    (hD : Derives gql (.opt (.nt .description)) tsD (printDesc d.desc)) (hen : EnumOK d) :
+    Derives gql (.nt .typeDefinition) (tsD ++ tk u) (printDefinition d) := by
+  obtain ⟨tsI, tsB, e, hcd, _, parts⟩ := hb
+  have hdirs := L_optDirectives true d.dirs fun _ => hcd
+  rw [e]
+  unfold printDefinition printDefBody
+  unfold BodyParts at parts
+  unfold EnumOK at hen
+  cases hk : d.kind <;> simp only [hk, DefKind.keyword] at parts hen ⊢
+  · -- scalar
+    obtain ⟨rfl, rfl⟩ := parts
+    have := Derives.nt (n := NT.scalarTypeDefinition) (Derives.seq hD (D.kwCons "scalar" (D.nameCons d.name hdirs)))
+    exact (Derives.nt (n := NT.typeDefinition) (Derives.altL this)).cast (by simp) (by simp)
+  · -- object
+    obtain ⟨pI, pB, _⟩ := parts
+    by_cases hf : d.fields = []
+    · obtain ⟨rfl, hb0⟩ := pB.nil hf
+      have := Derives.nt (n := NT.objectTypeDefinition) (Derives.altR (Derives.seq hD (D.kwCons "type" (D.nameCons d.name
+        (Derives.seq pI.opt hdirs)))))
+      exact (Derives.nt (n := NT.typeDefinition) (Derives.altR (Derives.altL this))).cast (by simp) (by simp [hb0])
+    · have := Derives.nt (n := NT.objectTypeDefinition) (Derives.altL (Derives.seq hD (D.kwCons "type" (D.nameCons d.name
+        (Derives.seq pI.opt (Derives.seq hdirs (pB.req hf)))))))
+      exact (Derives.nt (n := NT.typeDefinition) (Derives.altR (Derives.altL this))).cast (by simp) (by simp)
+  · -- interface
+    obtain ⟨pI, pB, _⟩ := parts
+    by_cases hf : d.fields = []
+    · obtain ⟨rfl, hb0⟩ := pB.nil hf
+      have := Derives.nt (n := NT.interfaceTypeDefinition) (Derives.altR (Derives.seq hD (D.kwCons "interface" (D.nameCons d.name
+        (Derives.seq pI.opt hdirs)))))
+      exact (Derives.nt (n := NT.typeDefinition) (Derives.altR (Derives.altR (Derives.altL this)))).cast (by simp) (by simp [hb0])
+    · have := Derives.nt (n := NT.interfaceTypeDefinition) (Derives.altL (Derives.seq hD (D.kwCons "interface" (D.nameCons d.name
+        (Derives.seq pI.opt (Derives.seq hdirs (pB.req hf)))))))
+      exact (Derives.nt (n := NT.typeDefinition) (Derives.altR (Derives.altR (Derives.altL this)))).cast (by simp) (by simp)
+  · -- union
+    obtain ⟨rfl, pB⟩ := parts
+    have := Derives.nt (n := NT.unionTypeDefinition) (Derives.seq hD (D.kwCons "union" (D.nameCons d.name
+      (Derives.seq hdirs pB.opt))))
+    exact (Derives.nt (n := NT.typeDefinition) (Derives.altR (Derives.altR (Derives.altR (Derives.altL this))))).cast
+      (by simp) (by simp)
+  · -- enum
+    obtain ⟨rfl, pB, hB0, _⟩ := parts
+    have pB := pB (hen trivial)
+    by_cases hf : d.enumValues = []
+    · obtain ⟨rfl, hb0⟩ := pB.nil hf
+      have := Derives.nt (n := NT.enumTypeDefinition) (Derives.altR (Derives.seq hD (D.kwCons "enum" (D.nameCons d.name hdirs))))
+      exact (Derives.nt (n := NT.typeDefinition) (Derives.altR (Derives.altR (Derives.altR (Derives.altR (Derives.altL this)))))).cast
+        (by simp) (by simp [hb0])
+    · have := Derives.nt (n := NT.enumTypeDefinition) (Derives.altL (Derives.seq hD (D.kwCons "enum" (D.nameCons d.name
+        (Derives.seq hdirs (pB.req hf))))))
+      exact (Derives.nt (n := NT.typeDefinition) (Derives.altR (Derives.altR (Derives.altR (Derives.altR (Derives.altL this)))))).cast
+        (by simp) (by simp)
+  · -- input object
+    obtain ⟨rfl, pB, _⟩ := parts
+    by_cases hf : d.fields = []
+    · obtain ⟨rfl, hb0⟩ := pB.nil hf
+      have := Derives.nt (n := NT.inputObjectTypeDefinition) (Derives.altR (Derives.seq hD (D.kwCons "input" (D.nameCons d.name hdirs))))
+      exact (Derives.nt (n := NT.typeDefinition) (Derives.altR (Derives.altR (Derives.altR (Derives.altR (Derives.altR this)))))).cast
+        (by simp) (by simp [hb0])
+    · have := Derives.nt (n := NT.inputObjectTypeDefinition) (Derives.altL (Derives.seq hD (D.kwCons "input" (D.nameCons d.name
+        (Derives.seq hdirs (pB.req hf))))))
+      exact (Derives.nt (n := NT.typeDefinition) (Derives.altR (Derives.altR (Derives.altR (Derives.altR (Derives.altR this)))))).cast
+        (by simp) (by simp)
+
+theorem derives_extension {d : Definition} {u : List Token} (hb : BodyOf d u) (hx : ExtendsSomething d) (hen : EnumOK d) :
+    Derives gql (.nt .typeExtension) (tKw "extend" :: tk u) (printExtension d) := by
+  obtain ⟨tsI, tsB, e, hcd, _, parts⟩ := hb
+  have hdirs := L_optDirectives true d.dirs fun _ => hcd
+  have hdirsReq : d.dirs ≠ [] → L (.nt (.directives true)) (printDirectives d.dirs) :=
+    fun hne => L_directives true d.dirs hne fun _ => hcd
+  rw [e]
+  unfold printExtension printDefBody
+  unfold BodyParts at parts
+  unfold EnumOK at hen
+  unfold ExtendsSomething at hx
+  cases hk : d.kind <;> simp only [hk, DefKind.keyword] at parts hen hx ⊢
+  · -- scalar
+    obtain ⟨rfl, rfl⟩ := parts
+    have := Derives.nt (n := NT.scalarTypeExtension) (D.kwCons "extend" (D.kwCons "scalar" (D.nameCons d.name (hdirsReq hx))))
+    exact (Derives.nt (n := NT.typeExtension) (Derives.altL this)).cast (by simp) (by simp)
+  · -- object
+    obtain ⟨pI, pB, _⟩ := parts
+    by_cases hf : d.fields = []
+    · obtain ⟨rfl, hb0⟩ := pB.nil hf
+      by_cases hdn : d.dirs = []
+      · have hi : d.interfaces ≠ [] := by
+          rcases hx with h | h | h
+          · exact h
+          · exact absurd hdn h
+          · exact absurd hf h
+        have := Derives.nt (n := NT.objectTypeExtension) (Derives.altR (Derives.altR (D.kwCons "extend" (D.kwCons "type"
+          (D.nameCons d.name (pI.req hi))))))
+        exact (Derives.nt (n := NT.typeExtension) (Derives.altR (Derives.altL this))).cast
+          (by simp [hdn, printDirectives]) (by simp [hb0, hdn, printDirectives])
+      · have := Derives.nt (n := NT.objectTypeExtension) (Derives.altR (Derives.altL (D.kwCons "extend" (D.kwCons "type"
+          (D.nameCons d.name (Derives.seq pI.opt (hdirsReq hdn)))))))
+        exact (Derives.nt (n := NT.typeExtension) (Derives.altR (Derives.altL this))).cast (by simp) (by simp [hb0])
+    · have := Derives.nt (n := NT.objectTypeExtension) (Derives.altL (D.kwCons "extend" (D.kwCons "type"
+        (D.nameCons d.name (Derives.seq pI.opt (Derives.seq hdirs (pB.req hf)))))))
+      exact (Derives.nt (n := NT.typeExtension) (Derives.altR (Derives.altL this))).cast (by simp) (by simp)
+  · -- interface
+    obtain ⟨pI, pB, _⟩ := parts
+    by_cases hf : d.fields = []
+    · obtain ⟨rfl, hb0⟩ := pB.nil hf
+      by_cases hdn : d.dirs = []
+      · have hi : d.interfaces ≠ [] := by
+          rcases hx with h | h | h
+          · exact h
+          · exact absurd hdn h
+          · exact absurd hf h
+        have := Derives.nt (n := NT.interfaceTypeExtension) (Derives.altR (Derives.altR (D.kwCons "extend" (D.kwCons "interface"
+          (D.nameCons d.name (pI.req hi))))))
+        exact (Derives.nt (n := NT.typeExtension) (Derives.altR (Derives.altR (Derives.altL this)))).cast
+          (by simp [hdn, printDirectives]) (by simp [hb0, hdn, printDirectives])
+      · have := Derives.nt (n := NT.interfaceTypeExtension) (Derives.altR (Derives.altL (D.kwCons "extend" (D.kwCons "interface"
+          (D.nameCons d.name (Derives.seq pI.opt (hdirsReq hdn)))))))
+        exact (Derives.nt (n := NT.typeExtension) (Derives.altR (Derives.altR (Derives.altL this)))).cast (by simp) (by simp [hb0])
+    · have := Derives.nt (n := NT.interfaceTypeExtension) (Derives.altL (D.kwCons "extend" (D.kwCons "interface"
+        (D.nameCons d.name (Derives.seq pI.opt (Derives.seq hdirs (pB.req hf)))))))
+      exact (Derives.nt (n := NT.typeExtension) (Derives.altR (Derives.altR (Derives.altL this)))).cast (by simp) (by simp)
+  · -- union
+    obtain ⟨rfl, pB⟩ := parts
+    by_cases ht : d.types = []
+    · obtain ⟨rfl, hb0⟩ := pB.nil ht
+      have hdn : d.dirs ≠ [] := by
+        rcases hx with h | h
+        · exact h
+        · exact absurd ht h
+      have := Derives.nt (n := NT.unionTypeExtension) (Derives.altR (D.kwCons "extend" (D.kwCons "union"
+        (D.nameCons d.name (hdirsReq hdn)))))
+      exact (Derives.nt (n := NT.typeExtension) (Derives.altR (Derives.altR (Derives.altR (Derives.altL this))))).cast
+        (by simp) (by simp [hb0])
+    · have := Derives.nt (n := NT.unionTypeExtension) (Derives.altL (D.kwCons "extend" (D.kwCons "union"
+        (D.nameCons d.name (Derives.seq hdirs (pB.req ht))))))
+      exact (Derives.nt (n := NT.typeExtension) (Derives.altR (Derives.altR (Derives.altR (Derives.altL this))))).cast
+        (by simp) (by simp)
+  · -- enum
+    obtain ⟨rfl, pB, hB0, _⟩ := parts
+    have pB := pB (hen trivial)
+    by_cases hf : d.enumValues = []
+    · obtain ⟨rfl, hb0⟩ := pB.nil hf
+      have hdn : d.dirs ≠ [] := by
+        rcases hx with h | h
+        · exact h
+        · exact absurd hf h
+      have := Derives.nt (n := NT.enumTypeExtension) (Derives.altR (D.kwCons "extend" (D.kwCons "enum"
+        (D.nameCons d.name (hdirsReq hdn)))))
+      exact (Derives.nt (n := NT.typeExtension) (Derives.altR (Derives.altR (Derives.altR (Derives.altR (Derives.altL this)))))).cast
+        (by simp) (by simp [hb0])
+    · have := Derives.nt (n := NT.enumTypeExtension) (Derives.altL (D.kwCons "extend" (D.kwCons "enum"
+        (D.nameCons d.name (Derives.seq hdirs (pB.req hf))))))
+      exact (Derives.nt (n := NT.typeExtension) (Derives.altR (Derives.altR (Derives.altR (Derives.altR (Derives.altL this)))))).cast
+        (by simp) (by simp)
+  · -- input object
+    obtain ⟨rfl, pB, _⟩ := parts
+    by_cases hf : d.fields = []
+    · obtain ⟨rfl, hb0⟩ := pB.nil hf
+      have hdn : d.dirs ≠ [] := by
+        rcases hx with h | h
+        · exact h
+        · exact absurd hf h
+      have := Derives.nt (n := NT.inputObjectTypeExtension) (Derives.altR (D.kwCons "extend" (D.kwCons "input"
+        (D.nameCons d.name (hdirsReq hdn)))))
+      exact (Derives.nt (n := NT.typeExtension) (Derives.altR (Derives.altR (Derives.altR (Derives.altR (Derives.altR this)))))).cast
+        (by simp) (by simp [hb0])
+    · have := Derives.nt (n := NT.inputObjectTypeExtension) (Derives.altL (D.kwCons "extend" (D.kwCons "input"
+        (D.nameCons d.name (Derives.seq hdirs (pB.req hf))))))
+      exact (Derives.nt (n := NT.typeExtension) (Derives.altR (Derives.altR (Derives.altR (Derives.altR (Derives.altR this)))))).cast
+        (by simp) (by simp)
+
 end Gql.Parser
